@@ -26,7 +26,7 @@ def c15_metricsJson (m : Dict (Dict Int)) : Json :=
   jList ((c15_sortBy (·.1) m).map (fun e =>
     jList [Json.str e.1, jList ((c15_sortBy (·.1) e.2).map (fun x => jList [Json.str x.1, jInt x.2]))]))
 
-def c15_retJson : Ret → Json
+def c15_retJson : MRet → Json
   | .unit => Json.null
   | .nat n => jNat n
   | .bool b => Json.bool b
@@ -98,7 +98,7 @@ def c15_parseOp (j : Json) : Except String MOp := do
   | _ => throw "op arity"
 
 /-- run calls one by one; stops at the first one the model rejects -/
-def c15_runList : List MOp → MState → List Ret → Nat → List Ret × MState × Int
+def c15_runList : List MOp → MState → List MRet → Nat → List MRet × MState × Int
   | [], s, acc, _ => (acc.reverse, s, -1)
   | op :: rest, s, acc, i =>
     match step op s with
